@@ -111,8 +111,8 @@ Proof. exact enact_effect. Qed.
 Print Assumptions C03_loop_iteration_clears_scope.
 
 (* ... and through frame::next (which may re-run empty bodies several times): only the current frame is
-   touched, it keeps its namespace, base, scope name; its variables are the ones it had or a fresh
-   iteration's bindings of the same loop. *)
+   touched, it keeps its namespace and base, and its scope name unless it starts over (a loop going round is a new scope, its name
+   is empty again); its variables are the ones it had or a fresh iteration's bindings of the same loop. *)
 Theorem C03_frame_next_touches_current_scope_only : forall fuel r c fr r1 c1 f rest,
   frame_next fuel r c = Ok (fr, r1, c1) -> c_frames c = f :: rest ->
   same_store r r1 /\
